@@ -167,9 +167,10 @@ def strip(src,m):
         src=src.replace("impl core::fmt::Display for CoseError {","#[verifier::external]\nimpl core::fmt::Display for CoseError {")
         src=src.replace('#[cfg(feature = "std")]\nimpl std::error::Error for CoseError {}\n','')
     return src
-import edits, edits_more, chain_edits
+import edits, edits_more, chain_edits, sign_edits
 edits_more.patch(edits.EDITS)
 chain_edits.patch(edits.EDITS)
+sign_edits.patch(edits.EDITS)
 for m in mods:
     src=strip(open(f'/repo/src/{m}/mod.rs').read(),m)
     for (mm,old,new) in edits.EDITS:
